@@ -64,14 +64,14 @@ def check_sample(res, L, N, keys, sizes, tap, ctx):
     ev = tap.log[n0:]
     ch = [e for e in ev if e[0] == "choices"]
     if not isinstance(out, list) or len(out) != N:
-        res.violate("wrong-length", got=(len(out) if hasattr(out, "__len__") else repr(out)), want=N, **ctx); return None
+        res.violate("wrong-length", got=(len(out) if hasattr(out, "__len__") else repr(out)), want=N, ctx=ctx); return None
     for v, e in enumerate(out):
         if not (isinstance(e, tuple) and len(e) == T and all(isinstance(x, int) and not isinstance(x, bool) and x >= 0 for x in e)):
-            res.violate("entry-not-a-tuple-of-nonnegative-ints", index=v, entry=repr(e), **ctx); return None
+            res.violate("entry-not-a-tuple-of-nonnegative-ints", index=v, entry=repr(e), ctx=ctx); return None
     col = [sum(e[i] for e in out) for i in range(T)]
     for i, s in enumerate(sizes):
         if col[i] % s:
-            res.violate("column-sum-not-divisible", column=i, total=col[i], size=s, **ctx); return None
+            res.violate("column-sum-not-divisible", column=i, total=col[i], size=s, ctx=ctx); return None
     raw = None
     if len(ch) == 1 and ch[0][2] is not None and len(ch[0][2]) == N:
         raw = ch[0][2]
@@ -79,7 +79,7 @@ def check_sample(res, L, N, keys, sizes, tap, ctx):
         res.count("choices_hook_or_fallback")
         pop, wts, k = ch[0][1]
         if sorted(pop) != sorted(keys):
-            res.violate("population-is-not-the-key-set", got=pop[:10], **ctx); return None
+            res.violate("population-is-not-the-key-set", got=pop[:10], ctx=ctx); return None
         need_any = False
         for i, s in enumerate(sizes):
             r = sum(e[i] for e in raw)
@@ -90,10 +90,10 @@ def check_sample(res, L, N, keys, sizes, tap, ctx):
                 res.count("columns_needing_stubs")
                 res.count("stubs_added", added)
             if added != need:
-                res.violate("not-the-fewest-added-stubs", column=i, size=s, raw_total=r, added=added, needed=need, **ctx); return None
+                res.violate("not-the-fewest-added-stubs", column=i, size=s, raw_total=r, added=added, needed=need, ctx=ctx); return None
         for v in range(N):
             if any(out[v][i] < raw[v][i] for i in range(T)):
-                res.violate("a-stub-was-removed", index=v, raw=raw[v], out=out[v], **ctx); return None
+                res.violate("a-stub-was-removed", index=v, raw=raw[v], out=out[v], ctx=ctx); return None
     else:
         # reduced strength: hook not observed (refactor draws differently)
         res.count("fallback_minimality")
@@ -103,14 +103,14 @@ def check_sample(res, L, N, keys, sizes, tap, ctx):
         for v, e in enumerate(out):
             dom = [k for k in keys if all(e[i] >= k[i] for i in range(T))]
             if not dom:
-                res.violate("entry-dominates-no-key", index=v, entry=e, **ctx); return None
+                res.violate("entry-dominates-no-key", index=v, entry=e, ctx=ctx); return None
             extra += min(sum(e[i] - k[i] for i in range(T)) for k in dom)
         if extra:
             need_any = True
             res.count("columns_needing_stubs")
         # sound without knowing the raw draws: the true draw of an entry is one of its dominated keys
         if extra > sum(s - 1 for s in sizes):
-            res.violate("more-stubs-added-than-any-minimal-patch", added_at_least=extra, bound=sum(s - 1 for s in sizes), **ctx); return None
+            res.violate("more-stubs-added-than-any-minimal-patch", added_at_least=extra, bound=sum(s - 1 for s in sizes), ctx=ctx); return None
     if 1 in sizes:
         res.count("size1_columns")
     return out, raw, need_any
@@ -185,7 +185,7 @@ def run_case(case):
             return dict(Counter(src))
         ok, info = two_stage(draw, exp, 20000, res)
         if not ok:
-            res.violate("key-frequencies-reject-the-weights", info=info, **ctx)
+            res.violate("key-frequencies-reject-the-weights", info=info, ctx=ctx)
     res.nontrivial = nontrivial
     res.sample = dict(ctx, schedules=scheds)
     res.digest = digest(res.sample)
